@@ -20,8 +20,8 @@ type recSpec struct {
 }
 
 type c08Case struct {
-	Cfg     hsConfig  `json:"cfg"`
-	Runs    []recRun  `json:"runs"` // compressed representation: runs of records
+	Cfg  hsConfig `json:"cfg"`
+	Runs []recRun `json:"runs"` // compressed representation: runs of records
 }
 
 // recRun is a run of Count records of one direction/kind/size.
